@@ -109,7 +109,7 @@ def C49(ctx):
 
     # T: seeded random programs x random configurations and unit-level LimitsModule call sequences
     tp = ctx.wpath("limits-trace.ndjson")
-    n, units = (500, 200) if q else (8000, 3000)
+    n, units = (500, 200) if q else (25000, 5000)
     vh(BIN, ["limits", "record", "seed=%d" % ctx.seed, "n=%d" % n, "units=%d" % units, "env=" + envp], stdout_path=tp)
     evs = read_ndjson(tp)
     os.unlink(tp)
@@ -120,7 +120,7 @@ def C49(ctx):
         raise ToolError("limits record produced %d events" % len(evs))
     ctx.sample({"trace_event": next(e for e in evs if e["a"] == "run" and e["obs"]["status"] == "failure")})
     ctx.sample({"trace_event": next(e for e in evs if e["a"] == "unit" and len(e["calls"]) > 4)})
-    bad = validate_calls("Limits", "TraceLimits", evs, "%s-%d" % (ctx.pid, os.getpid()), chunks=4 if q else 10,
+    bad = validate_calls("Limits", "TraceLimits", evs, "%s-%d" % (ctx.pid, os.getpid()), chunks=4 if q else 12,
                          env={"LIMENV": envp})
     ctx.cov["evaluations"] += len(evs)
     ctx.cov["traces_validated_against_impl"] += len(evs) - len(bad)
@@ -134,23 +134,24 @@ def C49(ctx):
     rnd = collections.Counter(e["obs"]["err"] or e["obs"]["status"] for e in evs if e["a"] == "run")
 
     # binding self-tests: a corrupted expectation / observation must be reported
-    bad_cases = json.loads(json.dumps(cases[:400]))
-    i = next(i for i, c in enumerate(bad_cases) if c["exp"]["status"] == "success")
+    i = next(i for i, c in enumerate(cases) if c["exp"]["status"] == "success")
+    j = next(i for i, c in enumerate(cases) if c["exp"]["status"] == "failure" and c["exp"]["at"] > 0)
+    bad_cases = json.loads(json.dumps(cases[:max(i, j) + 1]))
     bad_cases[i]["exp"] = {"status": "failure", "err": "CallDepth", "at": 0}
-    j = next(i for i, c in enumerate(bad_cases) if c["exp"]["status"] == "failure" and c["exp"]["at"] > 0)
     bad_cases[j]["exp"]["at"] -= 1
     _, m2, _ = run_cases(ctx, "limits", bad_cases, count=False)
-    if {o["b"] for o in m2} != {i, j} - {o["b"] for o in mism}:
+    if {o["b"] for o in m2} != {i, j} | {o["b"] for o in mism if o["b"] <= max(i, j)}:
         raise ToolError("binding self-test failed for limits: corrupted expectations %s, reported %s" % ([i, j], [o["b"] for o in m2]))
-    tr = json.loads(json.dumps(evs[:60] + [e for e in evs if e["a"] == "unit"][:40]))
-    i = next(i for i, e in enumerate(tr) if e["a"] == "run" and e["obs"]["status"] == "failure")
-    tr[i]["obs"]["at"] += 1
-    j = next(i for i, e in enumerate(tr) if e["a"] == "unit" and any(o["r"] != "ok" for o in e["obs"]))
-    k = next(k for k, o in enumerate(tr[j]["obs"]) if o["r"] != "ok")
-    tr[j]["obs"][k]["v"] += 1
+    bad_set = set(bad)
+    ri = next(k for k, e in enumerate(evs) if k not in bad_set and e["a"] == "run" and e["obs"]["status"] == "failure")
+    ui = next(k for k, e in enumerate(evs) if k not in bad_set and e["a"] == "unit" and any(o["r"] != "ok" for o in e["obs"]))
+    tr = json.loads(json.dumps([e for k, e in enumerate(evs[:50]) if k not in bad_set] + [evs[ri], evs[ui]]))
+    tr[-2]["obs"]["at"] += 1
+    k = next(k for k, o in enumerate(tr[-1]["obs"]) if o["r"] != "ok")
+    tr[-1]["obs"][k]["v"] += 1
     b2 = validate_calls("Limits", "TraceLimits", tr, "%s-%d-self" % (ctx.pid, os.getpid()), chunks=1, env={"LIMENV": envp})
-    if set(b2) != {i, j} - set():
-        raise ToolError("binding self-test failed for TraceLimits: corrupted %s, rejected %s" % ([i, j], b2))
+    if set(b2) != {len(tr) - 2, len(tr) - 1}:
+        raise ToolError("binding self-test failed for TraceLimits: corrupted the last two events, rejected %s" % b2)
     os.unlink(envp)
     distinct = len({json.dumps([c["mode"], c["cfg"], c["prog"]], sort_keys=True) for c in cases if c["prog"]}) \
         + len({json.dumps([e["cfg"], e.get("prog", e.get("calls"))], sort_keys=True) for e in evs})
@@ -160,13 +161,13 @@ def C49(ctx):
                     "instance: no running state beyond a limit, an op fails with a limits error iff performing it would exceed "
                     "a limit, the error names that limit, the Outcome function agrees with the machine. G: TLC enumerates "
                     "(transaction shape fee/no-fee) x (per limit: programs ending at limit-1/limit/limit+1; byte counters: limit "
-                    "one below/at/one above every threshold of the program) x (all ordered pairs of 12 limit probes at/beyond) x "
+                    "one below/at/one above every threshold of the program) x (all ordered pairs of 12 limit probes at/beyond%s) x "
                     "(protocol default configuration at its real values) with the expected outcome (status, error class, index "
                     "of the failing op); each case executed on a LedgerSimulator through a native test blueprint under "
                     "SystemOverrides.limit_parameters. T: %d seeded random programs under random tight configurations and %d "
                     "seeded LimitsModule call sequences (process_io_access / process_substate_key / process_substate_value) "
                     "validated by TraceLimits.tla. distinct = distinct (shape, configuration, program) cases + distinct recorded runs"
-                    % (4 if q else 5, n, units)}
+                    % (4 if q else 5, "" if q else "; all ordered triples", n, units)}
 
 
 # ---------------------------------------------------------------------------------------------
@@ -339,7 +340,73 @@ def C05(ctx):
                     "the harness walks the whole database and logs the graph; TraceNodeGraph.tla evaluates UniqueOwner, RefsGlobal, HasState, "
                     "EntityTypeMatches, NoCycles in every state. distinct = distinct structural graph changes"
                     % (5 if q else 6, "" if q else "; three models with one rule switched off each violate the expected invariant",
-                       runs, ln, "each scenario once, max_transaction left to the thorough tier" if q else "each scenario at every protocol version at which it is valid, max_transaction on its own ledger")}
+                       runs, ln, "each scenario once, max_transaction left to the thorough tier" if q else "each scenario at every protocol version at which it is valid (a fresh ledger per version), max_transaction on its own ledger")}
+
+
+# ---------------------------------------------------------------------------------------------
+# C50 encapsulation
+def C50(ctx):
+    q = ctx.quick
+    with ThreadPoolExecutor(max_workers=4) as ex:
+        fg = ex.submit(tlc, "NodeGraph", "GenEncapsulation", workers=4, coverage=False, timeout=3000)
+        # negative runs: a weakened rule must break the property (the property has teeth)
+        negs = [(m, ex.submit(tlc, "NodeGraph", "GenEncapsulation", workers=2, coverage=False, consts={"Mut": '"%s"' % m}, timeout=3000))
+                for m in ("dropByPackage", "dropIgnoresOuter", "globalizeAnyPackage")]
+        g = fg.result()
+        neg_res = [(m, f.result()) for m, f in negs]
+    tlc_must_pass(g, "GenEncapsulation (Encapsulated on every case)")
+    ctx.add_tlc(g)
+    for m, r in neg_res:
+        if r.violated != "InvEncapsulated":
+            raise ToolError("Encapsulation with weakened rule %s should violate InvEncapsulated, got %s" % (m, r.violated))
+    cases = g.printed("B")
+    g.out = ""
+    if len(cases) < 1500:
+        raise ToolError("GenEncapsulation produced only %d cases" % len(cases))
+    by = collections.Counter(c["exp"] for c in cases)
+    for cls in ("ok", "System:InvalidDropAccess", "System:InvalidGlobalizeAccess", "System:CannotGlobalize", "System:NotAnObject",
+                "System:InvalidChildObjectCreation", "System:BlueprintDoesNotExist", "System:OuterObjectDoesNotExist",
+                "CallFrame:DropNodeError.TakeNodeError.OwnNotFound", "setup:CallFrame:CreateFrameError.PassMessageError.DirectRefNotFound"):
+        if by[cls] == 0:
+            raise ToolError("vacuous case universe: no case expecting " + cls)
+    ctx.sample({"case": next(c for c in cases if c["exp"] == "System:InvalidDropAccess" and c["target"] == "bucket")})
+    ctx.sample({"case": next(c for c in cases if c["exp"] == "ok" and c["op"] == "drop" and c["target"] == "BI1")})
+    ctx.sample({"case": next(c for c in cases if c["sibling"])})
+    ctx.sample({"case": next(c for c in cases if c["op"] == "field_write:OUTER" and c["exp"].startswith("ok"))})
+    done, mism, extra = run_cases(ctx, "encapsulation", cases)
+    for o in mism:
+        c = cases[o["b"]]
+        allowed_but = o["got"].startswith("ok") and not str(o["exp"]).startswith("ok")
+        ctx.violation("encapsulation:%s:%s:%s" % (c["op"].split(":")[0], "allowed" if allowed_but else "answer", c["target"]),
+                      "actor %s, target %s (%s), %s: expected %s, engine %s" % (c["actor"], c["target"], c["how"], c["op"], o["exp"], o["got"]),
+                      {"module": "encapsulation", "case": c, "mismatch": o})
+    answers = extra[0]["classes"] if extra else {}
+    # binding self-test: one allowed case expected denied, one denied case expected allowed
+    bad = json.loads(json.dumps(cases))
+    i = next(i for i, c in enumerate(bad) if c["exp"] == "ok" and c["op"] == "drop")
+    bad[i]["exp"] = "System:InvalidDropAccess"
+    j = next(i for i, c in enumerate(bad) if c["exp"] == "System:InvalidGlobalizeAccess")
+    bad[j]["exp"] = "ok"
+    bad = bad[:max(i, j) + 1]
+    _, m2, _ = run_cases(ctx, "encapsulation", bad, count=False)
+    if {o["b"] for o in m2} != {i, j} - {o["b"] for o in mism}:
+        raise ToolError("binding self-test failed for encapsulation: corrupted %s, reported %s" % ([i, j], [o["b"] for o in m2]))
+    sib = [c for c in cases if c["sibling"]]
+    nontrivial = len({json.dumps([c["actor"], c["target"], c["how"], c["op"]]) for c in cases
+                      if not c["exp"].startswith("setup:")})
+    return {"exhaustive": True, "distinct_nontrivial": nontrivial, "cases": len(cases), "expected_answers": dict(by),
+            "engine_answers": answers,
+            "same_package_sibling_access_permitted": sorted({"%s %s %s" % (c["actor"], c["op"], c["target"]) for c in sib}),
+            "rule": "TLC enumerates (8 actors: functions and methods of blueprints X, Y of package A and Outer / inner blueprint Inner of "
+                    "package B, methods on two different outer objects and their inner objects) x (16 targets: objects of each blueprint, "
+                    "inner objects of the actor's and of a foreign outer object, bucket, vault, proof, key-value store, address reservations "
+                    "for three blueprints, four global components, the actor's own receiver) x (ownership moved in directly / through one more "
+                    "frame / a reference) x (drop, globalize without / with a reservation for the own / the target's blueprint, use a handed-in "
+                    "reservation, proof drop, open KV entry, call; new_object of every blueprint name; field read/write and KV access through "
+                    "SELF and OUTER), checks Encapsulated on each case and emits the answer the rules expect (ok + node reached / created, or the "
+                    "error class); each case is executed by native test blueprints on a LedgerSimulator (a foreign driver package obtains the "
+                    "target and hands it over) and the Result of the system call is compared. Three weakened rule sets are shown to violate the "
+                    "property. distinct = cases whose hand-over is possible"}
 
 
 PROPS = {
@@ -361,6 +428,22 @@ PROPS = {
                      "is not used (it hits `todo!()` on a frozen vault's FreezeStatus field). The S model has one substate per node and one "
                      "call frame; HasState / EntityTypeMatches are trivial in it.",
                 design_ref="DESIGN.md 5/C05"),
+    "C50": dict(fn=C50, level="model_checking", technique="TLA+ rules of the system layer + property checked by TLC on the whole bounded "
+                "universe of (actor, target, how obtained, system call); every case replayed on a full ledger with native test blueprints",
+                text="Only code of an object's own blueprint (or, for an inner object, of its outer object) can drop it; creation and "
+                     "globalization never cross package boundaries; actor state handles reach only the actor's own node or its outer object; "
+                     "buckets, vaults, proofs, address reservations and other packages' components cannot be dropped, globalized or modified "
+                     "by a foreign blueprint however the node was obtained; proofs are droppable by whoever owns them.",
+                note="Encapsulation.tla states the rules as the code has them (drop_object: blueprint-scoped, inner objects by instance "
+                     "context; new_object / globalize: PACKAGE-scoped - lead L15; kernel message passing: only owned nodes and global references "
+                     "can be handed over, so `obtained by reference` exists only for global nodes and the receiver itself) and, separately, the "
+                     "property; TLC checks rules => property on every case and the harness checks engine = rules on every case. Same-package "
+                     "sibling accesses the code permits (X creates / globalizes Y, a function of Outer globalizes an Inner of any outer object, "
+                     "Inner creates Outer ...) are listed in the evidence as information, not violations. A key-value store handed over by its "
+                     "owner can be opened by the receiver (KV stores carry no blueprint). Cases are single system calls (each in its own "
+                     "uncommitted transaction), not sequences; kernel-level substate APIs available to native code only are out of scope; "
+                     "proofs moved across two function boundaries (the resource package's restricted-proof rule) are not generated.",
+                design_ref="DESIGN.md 5/C50, lead L15"),
     "C49": dict(fn=C49, level="model_checking", technique="TLA+ limits machine (TLC exhaustive on a scaled instance) + "
                 "TLC-enumerated boundary cases replayed on a full ledger with a native test blueprint + trace validation of "
                 "random programs and of LimitsModule call sequences",
